@@ -846,6 +846,10 @@ class Exec:
         return self.run_body(fv, env)
 
     def run_body(self, fv: FuncV, env):
+        for d in getattr(fv.node, "decorator_list", []):
+            # a decorator may change what a call does (memoisation, wrapping): only `property` is modelled
+            if not (isinstance(d, ast.Name) and d.id == "property"):
+                raise Unsupported(f"decorator @{ast.unparse(d)} on {fv.dotted} is outside the modelled subset")
         fr = Frame(self, fv, env)
         self.depth += 1
         try:
